@@ -7,6 +7,7 @@
 From Coq Require Import ZArith List Bool.
 From RbpfV Require Import MachInt Ebpf Cases Mem InterpDefs WellFormed Verifier Isa MemLemmas Interp InterpProofs.
 From RbpfV Require Import ClirSem ClirProofs X86Sem X86Seq X86Stk JitFrameProofs LibWrapProofs.
+From RbpfV Require Import JitStep JitRun JitEntry.
 From RbpfV.gen Require Import Interp Clir JitFrame LibWrap.
 Import ListNotations.
 Open Scope Z_scope.
@@ -133,6 +134,23 @@ Theorem C09_fixed_jit_words : forall R0 m0 mem_ptr mem_len buf_ptr buf_len d e,
     load8 (mfix R0 m0) ((e + buf_ptr) mod 2 ^ 64) = (mem_ptr + mem_len) mod 2 ^ 64 /\ R 7 = buf_ptr.
 Proof. exact fixed_jit_words. Qed.
 
+(** the state the prologue leaves is an entry state of the run theorems C03_run_refines / C03_jit_agrees_with_interpreter: with
+    the packet where rdx points and the stack the 512 bytes below rbp, every register is a 64-bit value, R10 is the packet
+    address, rdi (eBPF r1) holds what the interpreter puts in r1 and rbp (eBPF r10) the top of the stack *)
+Theorem C09_jit_entry_no_metadata : forall R0 m0 E, (forall r, 0 <= R0 r < 2 ^ 64) -> 1024 <= R0 4 ->
+  e_mem_base E = R0 2 -> e_stack_base E + e_stack_len E = R0 4 - 40 -> e_mbuff_len E = 0 -> e_mem_len E <> 0 ->
+  exists R, krun (body_of gen_jit_prologue_nombuff) (R0, m0) = Some (R, m5 R0 m0) /\
+    (forall x, 0 <= R x < 2 ^ 64) /\ R 10 = e_mem_base E /\ R (ez 1) = rd (isa_init_regs E) 1 /\
+    R (ez 10) = e_stack_base E + e_stack_len E.
+Proof. exact jit_entry_no_metadata. Qed.
+
+Theorem C09_jit_entry_metadata : forall R0 m0 E, (forall r, 0 <= R0 r < 2 ^ 64) -> 1024 <= R0 4 ->
+  e_mem_base E = R0 2 -> e_stack_base E + e_stack_len E = R0 4 - 40 -> e_mbuff_len E <> 0 -> e_mbuff_base E = R0 7 ->
+  exists R, krun (body_of gen_jit_prologue_mbuff) (R0, m0) = Some (R, m5 R0 m0) /\
+    (forall x, 0 <= R x < 2 ^ 64) /\ R 10 = e_mem_base E /\ R (ez 1) = rd (isa_init_regs E) 1 /\
+    R (ez 10) = e_stack_base E + e_stack_len E.
+Proof. exact jit_entry_metadata. Qed.
+
 Print Assumptions C09_entry_registers.
 Print Assumptions C09_r1_every_kind_every_engine.
 Print Assumptions C09_fixed_metadata_words.
@@ -144,3 +162,5 @@ Print Assumptions C09_jit_prologue_metadata.
 Print Assumptions C09_jit_prologue_fixed_metadata.
 Print Assumptions C09_cranelift_entry.
 Print Assumptions C09_entry_values.
+Print Assumptions C09_jit_entry_no_metadata.
+Print Assumptions C09_jit_entry_metadata.
